@@ -107,7 +107,8 @@ def pname(tok):
 class Runner:
     """one network description + parameter values, with the implementation objects"""
 
-    def __init__(self, net, pv, names=None, reads_seed=None):
+    def __init__(self, net, pv, names=None, reads_seed=None, stray=None):
+        self.stray = dict(stray or {})
         self.net = net
         self.pv = pv
         self.names = names or default_names(net)
@@ -121,6 +122,7 @@ class Runner:
     def R(self):
         if self._R is None:
             self._R = impl.Real(self.net, self.pv, names=self.names, reads=self.reads())
+            self._R.stray_kwargs = self.stray
         return self._R
 
     def reads(self):
@@ -128,6 +130,7 @@ class Runner:
 
     def numpy_step(self, sv, opts=None, scalar_shape="vec1", fresh=False):
         R = impl.Real(self.net, self.pv, names=self.names) if fresh else self.R
+        R.stray_kwargs = self.stray
         out, ic = R.numpy_step(sv, opts, scalar_shape)
         return out
 
@@ -142,6 +145,7 @@ class Runner:
         # the same network objects are re-used for every engine / option set / level (stepping is
         # repeatable whatever was stepped or compiled before); only symbolic parameters need new elements
         R = self.R if not ptoks else impl.Real(self.net, self.pv, names=self.names, sym_params=sp, reads=self.reads())
+        R.stray_kwargs = self.stray
         # one engine object per symbol type serves every step and compilation of this runner: what it
         # compiled before (other options, other levels) must not show in what it compiles now
         eng = self._eng.setdefault(sym, impl.CsEngine(sym))
@@ -370,6 +374,8 @@ def correspondence(out, ctx, cases, opts=None, engines=("np",), per_case_points=
         oc = run.R.order_check()
         if oc:
             disagree(out, net, pv, None, "graph order model: " + oc)
+        if run.R.read_errors:
+            disagree(out, net, pv, None, "valid network: " + run.R.read_errors[0])
         mtree = {e: (mt[e][ci] if mt[e] is not None else None) for e in engines}
         if mtree.get("np") and "ERR" in mtree["np"]:
             disagree(out, net, pv, None, "model returns error " + mtree["np"]["ERR"] + " on a valid network")
@@ -1392,9 +1398,14 @@ def run_C10(ctx):
         except Exception as ex:
             fail(out, f"C10:{topo_key(net)}:np:names-raise", net, pv, sv, f"NumPy step with colliding names raised {ex!r:.200}")
         toks = [t for t in sv if not t.startswith("vc.") or True]
-        for t in (toks if not quick else rng.sample(toks, min(len(toks), 6))):
+        # every chosen input is scaled; besides, the density and the speed of the last segment of every link are set to
+        # exactly zero one at a time (an empty or standing segment: the flow it sends on is 0, and nothing that is
+        # not its neighbour may notice - not even through a 0/0)
+        plan = [(t, None) for t in (toks if not quick else rng.sample(toks, min(len(toks), 6)))]
+        plan += [(f"{q_}.{l}.{v_['N'] - 1}", 0.0) for l, v_ in net.links.items() for q_ in ("rho", "v")]
+        for t, newval in plan:
             sv2 = dict(sv)
-            sv2[t] = sv[t] * 1.37 + 0.91
+            sv2[t] = sv[t] * 1.37 + 0.91 if newval is None else newval
             if dyn.near_excluded(net, pv, sv2):
                 continue
             try:
@@ -1612,6 +1623,22 @@ def run_C17(ctx):
                     results.append(("CasADi", vals, vals))
             except Exception:
                 pass
+            # the same with keywords named after element parameters passed along (as the project's own tests do): an
+            # origin is limited by the densities of the link it feeds, whatever else is passed to the step
+            try:
+                if rep < 2:
+                    stray = {"rho_max": 0.6 * min(pv[f"lp.{l_}.rho_max"] for l_ in net.links),
+                             "rho_crit": 1.4 * max(pv[f"lp.{l_}.rho_crit"] for l_ in net.links),
+                             "v_free": 1.0, "a": 9.0, "lanes": 7, "L": 0.01, "C": 1e5, "turnrate": 0.123, "alpha": 5.0}
+                    runs = Runner(net, pv, stray=stray)
+                    results.append(("NumPy, stray element-parameter keywords", runs.numpy_step(sv), None))
+                    Fs, _ = runs.function("SX", 0, True)
+                    valss, probs = runs.call(Fs, 0, True, sv)
+                    if valss is not None:
+                        results.append(("CasADi, stray element-parameter keywords", valss, valss))
+            except Exception as ex:
+                fail(out, f"C17:{topo_key(net)}:stray-raise", net, pv, sv,
+                     f"a step with keywords named after element parameters ({sorted(stray)}) raised {ex!r:.200}")
             # the reported flows read off a function compiled for the same network with colliding element names
             # (level rep % 3): what an origin is called does not decide which flow is reported as its own
             try:
@@ -1672,6 +1699,8 @@ def judge_C17_prim(var, vals, npv, csv, mvals):
         return []
     if name == "get_simplifiedramp_flow" and var["s"] == "unlimited":
         return []
+    if vals.get("r", 0.0) > 1.0:
+        return []          # (metering rates above 1 are sampled for the engine-agreement property; outside this one's domain)
     out = []
     T = vals["T"]
     dem = vals["d"] + vals["w"] / T
@@ -1723,12 +1752,12 @@ def run_C18(ctx):
     out["coverage"]["evaluations"] += out2["coverage"]["evaluations"]
     INF = [math.inf, 1e9]
 
-    def steps(run, sv, backends, opts=None):
+    def steps(run, sv, backends, opts=None, shape="vec1"):
         res = {}
         for b_ in backends:
             try:
                 if b_ == "np":
-                    res[b_] = run.numpy_step(sv, opts)
+                    res[b_] = run.numpy_step(sv, opts, shape)
                 else:
                     F, _ = run.function(b_, 0, True, opts)
                     vals, probs = run.call(F, 0, True, sv)
@@ -1780,6 +1809,18 @@ def run_C18(ctx):
                         if bad:
                             k, x, y = bad[0]
                             fail(out, f"C18:vsl-neutral-opts:{len(vslset)}", net, pv, svnc, f"{b_}: positive-init options, link {l} with limited segments {vslset} and infinite limits gives {k} = {x!r}; plain link gives {y!r}", link=l, vsl=vslset, opts=o_)
+                # the same pair once more with whole-number densities and speeds handed over as integer-dtype arrays
+                rpi, rci = steps(Runner(plain, pvc), integer_state(svp), backends[:1], None, "int"), \
+                    steps(Runner(ctl, pvc), integer_state(sv), backends[:1], None, "int")
+                for b_ in backends[:1]:
+                    out["coverage"]["evaluations"] += 1
+                    if isinstance(rpi.get(b_), dict) and isinstance(rci.get(b_), dict):
+                        bad = states_close(rci[b_], rpi[b_], [k for k in keys if not math.isnan(rpi[b_][k])])
+                        if bad:
+                            k, x, y = bad[0]
+                            fail(out, f"C18:vsl-neutral-int:{len(vslset)}", net, pv, integer_state(sv), f"{b_}: integer-dtype state arrays, link {l} with limited segments {vslset} and infinite limits gives {k} = {x!r}; plain link gives {y!r}", link=l, vsl=vslset, scalar_shape="int")
+                    elif isinstance(rci.get(b_), Exception) and not isinstance(rpi.get(b_), Exception):
+                        fail(out, f"C18:vsl-raise-int:{len(vslset)}", net, pv, integer_state(sv), f"{b_}: integer-dtype state arrays, link {l} with limited segments {vslset}: {rci[b_]!r:.300}", link=l, vsl=vslset, scalar_shape="int")
                 for b_ in backends:
                     out["coverage"]["evaluations"] += 1
                     if isinstance(rp.get(b_), dict) and isinstance(rc.get(b_), dict):
@@ -1977,6 +2018,8 @@ def run_C07(ctx):
         R = run.R
         if not R.net.is_valid()[0]:
             continue
+        if R.read_errors:
+            fail(out, f"C07:{tk}:read", net, pv, None, "validated network: " + R.read_errors[0])
         # 1) NumPy with the engine's own variables
         for vt in ("rand",):
             try:
@@ -1991,11 +2034,20 @@ def run_C07(ctx):
                 fail(out, f"C07:{tk}:np-own", net, pv, None, f"NumPy engine with its own variables: step raised {ex!r:.300}")
             out["coverage"]["evaluations"] += 1
         # 2) NumPy with user arrays of the three scalar shapes, at boundary states; finiteness
-        for shape in ("vec1", "zerod", "float"):
+        for shape in ("vec1", "zerod", "float", "int"):
             sv = dyn.admissible_state(net, pv, rng, "boundary")
             for k in list(sv):
                 if math.isinf(sv[k]):
                     sv[k] = 1e6      # the finiteness clause is about finite inputs
+            if shape == "int":       # whole-number densities and speeds handed over as integer-dtype arrays
+                for _try in range(30):
+                    svi_ = integer_state(sv)
+                    if not dyn.near_excluded(net, pv, svi_):     # (rounding must not move the point onto the excluded 0/0)
+                        break
+                    sv = dyn.admissible_state(net, pv, rng, "interior")
+                else:
+                    continue
+                sv = {k: (1e6 if math.isinf(x) else x) for k, x in svi_.items()}
             try:
                 got = run.numpy_step(sv, None, shape)
                 out["coverage"]["evaluations"] += 1
@@ -2009,7 +2061,7 @@ def run_C07(ctx):
                             fail(out, f"C07:{tk}:shape", net, pv, sv, f"NumPy ({shape}): next {tag} of link {l} has shape {got[f'shape {tag} {l}']}", scalar_shape=shape)
                 for o, k in net.origins.items():
                     if k != "ideal":
-                        exp = {"vec1": (1,), "zerod": (), "float": ()}[shape]
+                        exp = {"vec1": (1,), "zerod": (), "float": (), "int": (1,)}[shape]
                         if got[f"shape w+ {o}"] != exp:
                             fail(out, f"C07:{tk}:shape", net, pv, sv, f"NumPy ({shape}): next queue of origin {o} has shape {got[f'shape w+ {o}']}, its state {exp}", scalar_shape=shape)
             except Exception as ex:
@@ -2257,6 +2309,44 @@ def run_C12(ctx):
                             break
         except Exception as ex:
             fail(out, f"C12:{tk}:partial-raise", net, pv, sv, f"stepping from a partial dictionary of initial conditions raised {ex!r:.300}")
+        # the dictionaries the LIBRARY reports (element.states after a step from values with negative entries, no
+        # clamping) handed back as the initial conditions of a second step that clamps: they are the caller's now -
+        # left as they were, and the step equals that of a fresh network from copies of the same values
+        try:
+            svn_ = nets.random_state(net, pv, rng, "negative")
+            if not dyn.near_excluded(net, pv, svn_):
+                Rl = impl.Real(net, pv)
+                Rl.numpy_step(svn_)
+                els_ = [(("l", l), Rl.links[l]) for l in Rl.links] + [(("o", o), Rl.origins[o]) for o in Rl.origins]
+                given = {el: el.states for _, el in els_ if el.states and el in set(Rl.net.elements)}
+                snap_ = {id(el): [(k, np.array(v, dtype=float).tobytes(), np.shape(v)) for k, v in d.items()] for el, d in given.items()}
+                Rf = impl.Real(net, pv)
+                twin = {("l", l): Rf.links[l] for l in Rf.links}
+                twin.update({("o", o): Rf.origins[o] for o in Rf.origins})
+                given_f = {twin[kk]: {k: np.array(v, dtype=float, copy=True) for k, v in el.states.items()}
+                           for kk, el in els_ if el in given}
+                o_ = {"pi_rho": True, "pi_v": True, "pi_w": True}
+                with np.errstate(all="ignore"):
+                    Rl.net.step(init_conditions=given, engine=impl.NpEngine(5.5), **nets.opts_kwargs(o_), **Rl.step_kwargs())
+                    Rf.net.step(init_conditions=given_f, engine=impl.NpEngine(5.5), **nets.opts_kwargs(o_), **Rf.step_kwargs())
+                out["coverage"]["evaluations"] += 1
+                for el, d in given.items():
+                    now_ = [(k, np.array(v, dtype=float).tobytes(), np.shape(v)) for k, v in d.items()]
+                    if now_ != snap_[id(el)]:
+                        chg = [k for (k, b_, _), (k2, b2, _) in zip(snap_[id(el)], now_) if b_ != b2] or [k for k, _, _ in now_]
+                        fail(out, f"C12:{tk}:reported-dict", net, pv, svn_,
+                             f"the dictionary reported as the states of {el.name} after a step, supplied as initial conditions of a "
+                             f"second step with the positive_init options, was modified by that step (entries {chg})", opts=o_)
+                        break
+                a_, b__ = Rl.read_next(), Rf.read_next()
+                for k in keys:
+                    if not same_float(a_[k], b__[k]) and not (math.isnan(a_[k]) and math.isnan(b__[k])):
+                        fail(out, f"C12:{tk}:reported-dict-repeat", net, pv, svn_,
+                             f"second step from the dictionaries the library reported gives {k} = {a_[k]!r}; a fresh network from "
+                             f"copies of the same values gives {b__[k]!r}", opts=o_)
+                        break
+        except Exception as ex:
+            fail(out, f"C12:{tk}:reported-dict-raise", net, pv, sv, f"a step from the dictionaries reported by the library raised {ex!r:.300}")
         # element parameters given as NumPy values (0-d arrays for the turn rates): two steps leave them as they
         # were and both give what numbers give
         try:
